@@ -220,7 +220,7 @@ def record_mbt(vh, seed, chunks, traces_per_chunk, depth, out_dir, wd, keep_ever
     return res
 
 
-def record_cover(vh, names, out_dir, wd):
+def record_cover(vh, names, out_dir, wd, pair=0):
     """spec -> code, exhaustive: the state cover of small MC_Node configurations (every state TLC reaches breadth-first, each
     with the schedule that reached it) is executed on a real node by the script driver, in chunks."""
     import mc, gzip
@@ -238,8 +238,8 @@ def record_cover(vh, names, out_dir, wd):
         per = max(50, (n + NCPU - 1) // NCPU)
         jobs = []
         for a in range(0, n, per):
-            tf = os.path.join(out_dir, 'script-cover-%s-%d.ndjson' % (nm, a))
-            jobs.append((tf, [vh, 'script', '-in', bf, '-from', str(a), '-runs', str(min(per, n - a)), '-out', tf], min(per, n - a)))
+            tf = os.path.join(out_dir, 'script-cover%s-%s-%d.ndjson' % ('pair' if pair else '', nm, a))
+            jobs.append((tf, [vh, 'script', '-in', bf, '-from', str(a), '-runs', str(min(per, n - a)), '-out', tf] + (['-pair', str(pair)] if pair else []), min(per, n - a)))
         def run(j):
             r = sh(j[1], timeout=1800)
             if r.returncode != 0:
